@@ -280,6 +280,7 @@ func runC01(c *checker) {
 		logf("%s: %d ops", b.id(), len(cs.ops))
 		cs.run()
 	}
+	c01NegZeroProbe(c)
 	c.rep.Rule = "programs: random multi-file abstract programs (all base types, nested containers incl. unhashable keys and slice sets, typedef chains, enums with gaps/negatives, structs/unions/exceptions, defaults, constants, services with inheritance, go.* annotations) × CLI option sets; per named type (struct, union, exception, typedef, enum, args, result): random valid Go values (nil vs empty, unset vs set, extreme scalars, NaN outside keys) → ToWire/Encode vs reference encoding, permuted reference encoding → FromWire/Decode under {whole, 1-byte, random incl. zero-length reads, seekable}; every third value broken at one schema rule → both serialisers must fail; Default_*, Get*/IsSet* on nil and non-nil receivers, every constant; non-trivial = value with more than one node / invalid value / accessor; distinct by (program, op)"
 }
 
@@ -297,4 +298,42 @@ func small(cfg progs.Config) progs.Config {
 		cfg.Files, cfg.Defs, cfg.Consts, cfg.Services, cfg.Funcs = 2, 4, 3, 1, 3
 	}
 	return cfg
+}
+
+// c01NegZeroProbe: known finding D76. A double literal -0.0 in a constant or a default value is
+// written into the generated code as `-0`, which Go evaluates to +0 (the language has no
+// negative-zero constant): the generated constant, Default_*, Get* and the default the
+// serialisers write differ from the IDL literal in the sign bit. The fixed program below is run
+// through the ordinary C01 operations with every failure attributed to D76.
+func c01NegZeroProbe(c *checker) {
+	f := &progs.File{Path: "negzero.thrift"}
+	dbl := func() *progs.Type { return &progs.Type{K: progs.Double} }
+	nz := func() *progs.Lit { return &progs.Lit{K: progs.LDouble, D: "-0.0"} }
+	f.Consts = []*progs.Constant{
+		{File: f, Name: "NEG_ZERO", Type: dbl(), Value: nz()},
+		{File: f, Name: "ZEROS", Type: &progs.Type{K: progs.List, Elem: dbl()}, Value: &progs.Lit{K: progs.LList, Items: []*progs.Lit{nz(), {K: progs.LDouble, D: "0.0"}}}},
+	}
+	f.Defs = []*progs.Def{{File: f, Name: "Holder", Kind: progs.Struct, Index: 0, Fields: []*progs.Field{
+		{ID: 1, Name: "d", Req: progs.Optional, Type: dbl(), Default: nz()},
+		{ID: 2, Name: "plain", Req: progs.Optional, Type: dbl()}}}}
+	prog := &progs.Program{Files: []*progs.File{f}, Root: f}
+	b := &built{seed: 0, prog: prog}
+	b.schema = prog.Schema()
+	b.job = gobuild.JobFor(prog, b.schema, b.opts, true)
+	b.res = c.env.BuildAll([]*gobuild.Job{b.job}, 1)[0]
+	if b.res.Internal != "" || !b.res.GenOK || !b.res.BuildOK {
+		c.rep.Notes = append(c.rep.Notes, "D76 probe: the probe program did not build: "+summarize(b.res.GenOut+b.res.BuildOut, 300))
+		return
+	}
+	before := len(c.rep.Known)
+	cs := c.newCaseSet("C01", b)
+	c01Program(cs, 24)
+	for i := range cs.ops {
+		cs.ops[i].Known = "D76"
+	}
+	c.rep.Hist("how", "D76 probe (negative-zero literals)")
+	cs.run()
+	if len(c.rep.Known) == before {
+		c.rep.Notes = append(c.rep.Notes, "D76 probe: no operation on the negative-zero program failed — the finding appears to be repaired; known_findings.json should say so")
+	}
 }
